@@ -4,19 +4,20 @@
 # /repo and /verif/harness are not touched. Updates seeded/<name>/meta.json.
 LAB=$1; shift
 for s in "$@"; do
-  id=${s%%-*}; m=${s##*-}
+  id=${s%%-*}; m=${s##*-}; prop=$id
+  case $id in F*) prop=$(python3 -c "import json;print(json.load(open('/verif/seeded/$s/agent_meta.json'))['property'][:3])");; esac
   [ -f /verif/seeded/$s/patch.diff ] || { echo "$s NOPATCH"; continue; }
   cd $LAB/repo && git checkout -q -- . && git checkout -q --detach $(git -C /repo rev-parse HEAD)
   if ! git apply /verif/seeded/$s/patch.diff 2>/dev/null; then echo "$s NOAPPLY"; continue; fi
   (cd $LAB/verif/harness && cargo build --release --offline >/dev/null 2>&1) || { echo "$s BUILD-FAILED"; git checkout -q -- .; continue; }
-  out=$(cd $LAB/verif && GV_ROOT=$LAB/verif RUST_BACKTRACE=0 harness/target/release/gv check $id quick 2>&1); code=$?
+  out=$(cd $LAB/verif && GV_ROOT=$LAB/verif RUST_BACKTRACE=0 harness/target/release/gv check $prop quick 2>&1); code=$?
   sig=$(echo "$out" | grep "signature:" | head -1 | sed 's/^ *signature: //' | cut -c1-160)
   case=$(echo "$out" | grep "case:" | head -1 | sed 's/^ *case: //' | cut -c1-120)
   echo "$s exit=$code sig=[$sig] case=[$case]"
   if [ "$code" = "1" ]; then
-    python3 /verif/tools/record_seed.py $id $m $id "$sig on $case" >/dev/null
+    python3 /verif/tools/record_seed.py $id $m $prop "$sig on $case" >/dev/null
   else
-    python3 /verif/tools/record_seed.py $id $m none "not reported by bin/check $id quick (exit=$code)" >/dev/null
+    python3 /verif/tools/record_seed.py $id $m none "not reported by bin/check $prop quick (exit=$code)" >/dev/null
   fi
   rm -rf $LAB/verif/replays
   cd $LAB/repo && git checkout -q -- .
